@@ -455,6 +455,14 @@ def enum_large(tier, seed):
             for mode in ("all", "half", "few"):
                 for kopt in (0, 1, 3 * 1, 3 * 2):  # defaults, keep_unary, keep_input_roots-ish bit patterns
                     yield dict(sa=sa, sb=sb, k=k, mode=mode, kopt=kopt)
+    # two parents with more than 341 children each (per-parent interval buffers spill into a second block)
+    for k in ([800] if tier == "quick" else [684, 686, 800, 1400]):
+        for sb in ("twostar", "star"):
+            for mode in ("all", "half"):
+                yield dict(sa="twostar", sb=sb, k=k, mode=mode, kopt=0)
+    for k in ([700] if tier == "quick" else [684, 700, 1000]):
+        for kopt in (0, 1):
+            yield dict(stagger=k, kopt=kopt)
 
 
 def run_large(case, ctx):
@@ -462,8 +470,15 @@ def run_large(case, ctx):
     initial queue sizes; same positional oracle as C04.simplify."""
     import tskit
 
-    from ._shapes import two_tree_spec
+    from ._shapes import staggered_twostar, two_tree_spec
 
+    ctx.nt(True)
+    if "stagger" in case:
+        spec = staggered_twostar(case["stagger"])
+        tables = gen.build_tables(spec, tskit)
+        check_simplify(ctx, tskit, spec, tables, None, decode_opts(case["kopt"]), explicit=True, via="ts",
+                       tskit_genotypes=False)
+        return
     k = case["k"]
     spec = two_tree_spec(case["sa"], case["sb"], k, internal_samples=(k % 2 == 0))
     tables = gen.build_tables(spec, tskit)
